@@ -256,14 +256,19 @@ def run_shared(c, prop):
     if not have:
         return
     work = designs.scratch(prop)
-    builds = e2e.build_many(c.seed, range(n), lambda i: ["-errors"] if i % 3 == 1 else [], work)
+    nm = 24 if c.tier == "quick" else 96
+    c.cov["rule"] += (" Before them the systematic transport table: %d matrix designs (every primitive kind in one request location "
+                      "query/header/cookie/body and one response location header/body/cookie, required / optional / defaulted in rotation, "
+                      "without and with validations), independent of the seed." % nm)
+    builds = e2e.build_many(c.seed, range(nm), lambda i: ["-matrix-design"], work)
+    builds += e2e.build_many(c.seed, range(n), lambda i: ["-errors"] if i % 3 == 1 else [], work)
     transport_ops = []
     for b in builds:
         if b.error:
             c.hist("build", "rejected" if b.error.startswith("rejected") else "failed")
             if not b.error.startswith("rejected"):
                 c.fail("e2e-build", "design %d could not be generated/built: %s" % (b.index, b.error[:300]),
-                       input={"seed": c.seed, "index": b.index}, design=b.design, expected="builds", actual=b.error)
+                       input={"seed": c.seed, "index": b.index, "flags": b.flags}, design=b.design, expected="builds", actual=b.error)
             continue
         c.hist("build", "ok")
         cmds, meta = commands_for(b, c.seed, per)
@@ -286,7 +291,7 @@ def run_shared(c, prop):
             for sig, what in judge_call(b, s, m, cmd, o):
                 want = "request" if prop == "C02" else "response"
                 if sig.startswith(want) or sig.startswith("panic") or sig == "harness":
-                    c.fail(sig, what, input={"seed": c.seed, "index": b.index, "command": cmd}, design=b.design,
+                    c.fail(sig, what, input={"seed": c.seed, "index": b.index, "flags": b.flags, "command": cmd}, design=b.design,
                            expected="value delivered unchanged", actual=json.dumps(o)[:1500])
             # feed the primitive transports of this exchange to the Lean model
             transport_ops += transport_lines(b, m, cmd, o)
@@ -337,7 +342,10 @@ def replay(c, obj):
     f = obj["failure"]
     c.go_build("genrun")
     work = designs.scratch("C02r")
-    b = e2e.build_design(f["input"]["seed"], f["input"]["index"], ["-errors"] if f["input"]["index"] % 3 == 1 else [], work)
+    flags = f["input"].get("flags")
+    if flags is None:
+        flags = ["-errors"] if f["input"]["index"] % 3 == 1 else []
+    b = e2e.build_design(f["input"]["seed"], f["input"]["index"], flags, work)
     if b.error:
         print("build:", b.error)
         shutil.rmtree(work, ignore_errors=True)
